@@ -13,8 +13,8 @@ import (
 	"net/http"
 	"strings"
 	"sync"
-	"syscall"
 	"sync/atomic"
+	"syscall"
 	"time"
 
 	"github.com/IrineSistiana/mosproxy/verif/internal/clock"
@@ -49,7 +49,8 @@ type QueryLog struct {
 
 // Server is one fake upstream (one tag) that can listen on several transports.
 type Server struct {
-	Tag string
+	RedirectTo string // Location of the 307 answer to queries of kind "redir" (DoH servers)
+	Tag        string
 
 	hook   func(q *QueryLog, d *Directives)
 	mutate func(q *QueryLog, reply []byte) []byte
@@ -494,6 +495,13 @@ func (s *Server) httpHandler(transport string) http.Handler {
 			return
 		case "close", "rst":
 			panic(http.ErrAbortHandler)
+		case "redir":
+			// an HTTP redirect to another host:port (set by the harness): a DoH peer must not be able to
+			// send the proxy elsewhere
+			s.sent(a)
+			w.Header().Set("Location", s.RedirectTo)
+			w.WriteHeader(307)
+			return
 		case "http":
 			s.sent(a)
 			w.WriteHeader(a.http)
